@@ -28,8 +28,17 @@ def load_known(pid):
     return [f for f in data.get("findings", []) if f.get("property") == pid and f.get("status", "open") == "open"]
 
 
+WORKER_MEM_BYTES = int(os.environ.get("VERIF_WORKER_MEM_GB", "10")) << 30
+
+
 def _worker(args):
     modname, idx, tier, active_known = args
+    try:
+        # a solver query that blows up must fail inside its own worker (reported as inconclusive), not take the machine down
+        import resource
+        resource.setrlimit(resource.RLIMIT_AS, (WORKER_MEM_BYTES, WORKER_MEM_BYTES))
+    except Exception:
+        pass
     try:
         from . import harness as H
         mod = importlib.import_module(modname)
@@ -113,10 +122,10 @@ def main(argv=None):
     random.Random(seed).shuffle(order)
     # heavier obligations first
     order.sort(key=lambda i: -getattr(obs[i], "weight", 1))
-    ctx = multiprocessing.get_context("fork")
     results = []
-    with ctx.Pool(processes=max(1, min(a.jobs, len(order) or 1)), maxtasksperchild=1) as pool:
-        for res in pool.imap_unordered(_worker, [(modname, i, a.tier, active) for i in order]):
+    if True:
+        for res in _run_tasks([(modname, i, a.tier, active) for i in order], max(1, min(a.jobs, len(order) or 1)),
+                              {i: 2.0 * float(getattr(obs[i], "budget_s", 600.0)) + 600.0 for i in order}, obs):
             results.append(res)
             st = res["status"]
             if st != "ok" or os.environ.get("VERIF_VERBOSE"):
@@ -130,6 +139,66 @@ def main(argv=None):
                 sys.stdout.flush()
     results.sort(key=lambda r: r["index"])
     return finish(pid, a, seed, t0, results, mod, known_res)
+
+
+def _child(conn, task):
+    try:
+        res = _worker(task)
+    except BaseException as ex:   # noqa
+        res = dict(name="%s[%d]" % (task[0], task[1]), index=task[1], status="error", message="worker raised %s" % ex, paths=0, stats={}, functions=[], labels={}, wall_s=0.0, validated=0)
+    try:
+        conn.send(res)
+    except Exception as ex:
+        try:
+            conn.send(dict(name=res.get("name"), index=task[1], status="error", message="result could not be sent: %s" % ex, paths=res.get("paths", 0), stats={}, functions=[],
+                           labels={}, wall_s=res.get("wall_s", 0.0), validated=0))
+        except Exception:
+            pass
+    finally:
+        conn.close()
+
+
+def _run_tasks(tasks, jobs, hard_timeouts, obs):
+    """one forked process per obligation; a worker that dies (out of memory, crash in the solver) or overruns its hard limit is reported
+    as an inconclusive obligation instead of hanging the run"""
+    from multiprocessing.connection import wait
+    ctx = multiprocessing.get_context("fork")
+    pending = list(tasks)
+    running = {}
+
+    def lost(task, why):
+        i = task[1]
+        try:
+            nm = obs[i].describe()
+        except Exception:
+            nm = "%s[%d]" % (task[0], i)
+        return dict(name=nm, index=i, status="inconclusive", message=why, paths=0, stats={}, functions=[], labels={}, wall_s=0.0, validated=0)
+    while pending or running:
+        while pending and len(running) < jobs:
+            t = pending.pop(0)
+            rd, wr = ctx.Pipe(duplex=False)
+            p = ctx.Process(target=_child, args=(wr, t))
+            p.start()
+            wr.close()
+            running[p.pid] = (p, rd, t, time.time())
+        wait([v[1] for v in running.values()] + [v[0].sentinel for v in running.values()], timeout=5.0)
+        for pid_, (p, rd, t, t1) in list(running.items()):
+            res = None
+            if rd.poll():
+                try:
+                    res = rd.recv()
+                except (EOFError, OSError):
+                    res = lost(t, "worker died without a result (exit code %s; out of memory or a crash inside the solver)" % p.exitcode)
+            elif not p.is_alive():
+                res = lost(t, "worker died without a result (exit code %s; out of memory or a crash inside the solver)" % p.exitcode)
+            elif time.time() - t1 > hard_timeouts.get(t[1], 1800.0):
+                p.kill()
+                res = lost(t, "hard time limit of the obligation exceeded (%.0f s)" % hard_timeouts.get(t[1], 1800.0))
+            if res is not None:
+                p.join(timeout=10)
+                rd.close()
+                del running[pid_]
+                yield res
 
 
 def finish(pid, a, seed, t0, results, mod, known_res, import_error=None):
